@@ -163,7 +163,54 @@ def sliceFreeVars (a b : Dom K) (σ : Env K) : List String :=
   let fb := if fixesAll σ b.vars then [] else (b.peval σ).freeVars
   dedup ((fa.filter (fun x => !b.vars.contains x)) ++ fb)
 
+/-- `D(**σ)` for any nesting of products (and Boolean combinations of products): EVERY factor all of whose own
+    variables are in `σ` becomes a `Point` — both factors of one product if the call fixes both (the two tests in
+    `ProductDomain.__call__` are independent) —, the other factors are evaluated recursively -/
+def sliceRec (τ πτ : Tol K) (σ : Env K) : Dom K → Env K → Env K → Option Bool
+  | .prod a b, pts, ρ => do
+    let ia ← if fixesAll σ a.vars then pointContains πτ a.vars σ pts else sliceRec τ πτ σ a pts ρ
+    let ib ← if fixesAll σ b.vars then pointContains πτ b.vars σ pts else sliceRec τ πτ σ b pts ρ
+    pure (ia && ib)
+  | .union a b, pts, ρ => do
+    let ia ← sliceRec τ πτ σ a pts ρ
+    let ib ← sliceRec τ πτ σ b pts ρ
+    pure (ia || ib)
+  | .cut a b, pts, ρ => do
+    let ia ← sliceRec τ πτ σ a pts ρ
+    let ib ← sliceRec τ πτ σ b pts ρ
+    pure (ia && !ib)
+  | .inter a b, pts, ρ => do
+    let ia ← sliceRec τ πτ σ a pts ρ
+    let ib ← sliceRec τ πτ σ b pts ρ
+    pure (ia && ib)
+  | d, pts, ρ => containsAux τ false (d.peval σ) pts ρ
+
+/-- `necessary_variables` of the sliced expression -/
+def sliceRecFreeVars (σ : Env K) : Dom K → List String
+  | .prod a b =>
+    let fa := if fixesAll σ a.vars then [] else sliceRecFreeVars σ a
+    let fb := if fixesAll σ b.vars then [] else sliceRecFreeVars σ b
+    dedup ((fa.filter (fun x => !b.vars.contains x)) ++ fb)
+  | .union a b | .cut a b | .inter a b => dedup (sliceRecFreeVars σ a ++ sliceRecFreeVars σ b)
+  | d => (d.peval σ).freeVars
+
 end slice
+
+section sliceMargin
+variable {K : Type} [Add K] [Sub K] [Mul K] [Div K] [Neg K] [LE K] [DecidableLE K] [OfNat K 0] [OfNat K 1] [BEq K]
+
+/-- smallest comparison slack of the factors that are NOT fixed (harness only); `none` = nothing to compare -/
+def sliceRecMargin (τ : Tol K) (σ : Env K) : Dom K → Env K → Env K → Option K
+  | .prod a b, pts, ρ | .union a b, pts, ρ | .cut a b, pts, ρ | .inter a b, pts, ρ =>
+    let ma := if fixesAll σ a.vars then none else sliceRecMargin τ σ a pts ρ
+    let mb := if fixesAll σ b.vars then none else sliceRecMargin τ σ b pts ρ
+    match ma, mb with
+    | some x, some y => some (minK x y)
+    | some x, none => some x
+    | none, y => y
+  | d, pts, ρ => margin τ false (d.peval σ) pts ρ
+
+end sliceMargin
 
 /-! ### user-set volumes (`Domain.set_volume`) under `__call__`
 
